@@ -265,14 +265,20 @@ func init() {
 	dec := []string{"graph.Graph6Decode", "graph.Sparse6Decode"}
 	register(&propDef{
 		id:          "C08",
-		explanation: "Decides panic-freedom and termination of Graph6Decode and Sparse6Decode themselves for every input string: BOUNDS (every string/slice index, slice expression, make size, non-constant divisor and signed shift count is proved in range by E-PROVE from the dominating guards: polynomial terms, division facts, phi-induction), TERM (every loop has a strictly monotone integer counter bounded by a loop-invariant value: ranking function), PRECOND (every callee either cannot panic, or its explicit panics are refuted at the call site after substituting the actual arguments, or its stated range contract (AddEdge: 0 <= i, j < N) is proved), plus no explicit panic is reachable. Apart from one obligation - an unsigned subtraction whose result is measured by a math/bits function (k = 64 - LeadingZeros64(n-1)) must be proved not to wrap - integer arithmetic is assumed not to overflow (the property's own bound 1 <= n <= 4096 for the pair value, 6*len(s) and n(n-1)/2). Does not decide which malformed strings yield an error rather than a graph, nor the re-encode/decode clause.",
+		explanation: "Decides panic-freedom and termination of Graph6Decode and Sparse6Decode themselves for every input string: BOUNDS (every string/slice index, slice expression, make size, non-constant divisor and signed shift count is proved in range by E-PROVE from the dominating guards: polynomial terms, division facts, phi-induction), TERM (every loop has a strictly monotone integer counter bounded by a loop-invariant value: ranking function), PRECOND (every callee either cannot panic, or its explicit panics are refuted at the call site after substituting the actual arguments, or its stated range contract (AddEdge: 0 <= i, j < N) is proved), plus no explicit panic is reachable; FRESH (the graph returned reaches no package-level memory: no cached instance is shared between calls). Apart from one obligation - an unsigned subtraction whose result is measured by a math/bits function (k = 64 - LeadingZeros64(n-1)) must be proved not to wrap - integer arithmetic is assumed not to overflow (the property's own bound 1 <= n <= 4096 for the pair value, 6*len(s) and n(n-1)/2). Does not decide which malformed strings yield an error rather than a graph, nor the re-encode/decode clause.",
 		notDecided:  []string{"that re-encoding a successfully decoded graph and decoding again gives the same graph", "that an error (rather than some graph) is returned for each particular malformed string", "allocation size for huge declared n (outside the property's bound)", "index safety inside callees beyond their explicit panics and stated contracts (NewDense, NewSparse, AddEdge bodies)"},
 		assumptions: []string{"declared n <= 4096, so n(n-1)/2, 6*len(s) and uint64->int conversions do not overflow", "trusted contracts: (*SparseGraph).AddEdge(i, j) is panic-free for 0 <= i, j < N; fmt/errors/strings/bits functions listed in noPanicStd do not panic"},
 		run: func(c *Ctx, tier string) []*RuleResult {
 			hd := &RuleResult{Rule: "HEADER", Doc: "the optional header is removed as a prefix: a strings.Trim/TrimLeft with the header text as its character set eats leading data bytes (the size byte), so the graph returned is not on the declared number of vertices", MinInst: 2}
 			trimRule(c, hd, "graph.Graph6Decode", 63, 126)
 			trimRule(c, hd, "graph.Sparse6Decode", 58, 58)
-			return []*RuleResult{ruleBounds(c, dec, tier), ruleTerm(c, dec), rulePrecond(c, dec), hd}
+			// every call returns a graph of its own: a cached instance handed out for the empty string or
+			// next to errors would carry one caller's edits to the next
+			fr := &RuleResult{Rule: "FRESH", Doc: "the graph a decoder returns reaches no package-level memory and none of its argument: results of different calls are independent", MinInst: 2}
+			for _, n := range dec {
+				freshResult(c, fr, c.Fn(n), 0, nil, nil, "is a graph of its own")
+			}
+			return []*RuleResult{ruleBounds(c, dec, tier), ruleTerm(c, dec), rulePrecond(c, dec), hd, fr}
 		},
 		controls: func(ctl *Ctx) []*RuleResult {
 			b := ruleBounds(ctl, []string{"decctl.BadIndexBeforeCheck", "decctl.BadLoopEnd", "decctl.GoodDecode"}, "quick")
